@@ -27,9 +27,13 @@ TStep == /\ ~fin /\ T.kind = "mut"
 \* declaration rows that need a context (template parameters are only visible in their own declaration)
 DeclValid == {"tmpl-one", "tmpl-two", "tmpl-vector-arg", "tmpl-reuse-name"}
 DeclInvalid == {"tmpl-foreign-param", "tmpl-undeclared-param", "tmpl-foreign-in-vector", "tmpl-param-after-template"}
-YamlValid == DeclValid \cup {"minimal", "empty-block", "class-with-method", "namespace-decl", "language-c", "language-cxx",
+\* a declaration with a fortran_generic list is legal iff EVERY entry of the list is: an illegal +implied (unknown
+\* argument, too many arguments to size) in any position makes the whole declaration illegal
+GenericImplied == {<<k, w>> : k \in 1..3, w \in {"unknown-argument", "too-many-arguments"}}
+GenericName(p) == "generic-implied:" \o p[2] \o ":entry" \o (CASE p[1] = 1 -> "1" [] p[1] = 2 -> "2" [] p[1] = 3 -> "3")
+YamlValid == DeclValid \cup {"generic-implied:legal"} \cup {"minimal", "empty-block", "class-with-method", "namespace-decl", "language-c", "language-cxx",
               "template-list", "generic-list", "default-arg-suffix-list"}
-YamlInvalid == DeclInvalid \cup {"language-fortran", "decl-entry-without-decl", "cxx_template-not-list", "fortran_generic-not-list",
+YamlInvalid == DeclInvalid \cup {GenericName(p) : p \in GenericImplied} \cup {"language-fortran", "decl-entry-without-decl", "cxx_template-not-list", "fortran_generic-not-list",
                 "default_arg_suffix-not-list", "declarations-not-list", "decl-not-string", "options-not-mapping",
                 "format-not-mapping", "attrs-not-mapping", "class-decl-with-body", "unknown-top-level-type"}
 
